@@ -117,7 +117,7 @@ Lemma bytes_prefix_dot : forall s,
   String.prefix "." s = match bytes s with c :: _ => c =? ch_dot | [] => false end.
 Proof.
   intros [|c s]; [reflexivity|]. cbn [prefix bytes].
-  destruct (ascii_dec "."%char c) as [<-|Hn]; [reflexivity|].
+  destruct (ascii_dec "."%char c) as [<-|Hn]; [destruct s; reflexivity|].
   symmetry. apply N.eqb_neq. intro H. apply Hn. apply N_of_ascii_inj. exact (eq_sym H).
 Qed.
 
@@ -131,10 +131,6 @@ Definition s_domain_holds (k : kind) (s d : string) (hits : list string) : bool 
   | KKeyword => s_contains d s
   | KRegex => existsb (String.eqb s) hits
   end.
-
-Lemma ends_with_self_or : forall name suf, ends_with name suf = true -> forall p,
-  pat_ok name = true -> pat_ok suf = true.
-Proof. intros name suf H p Hn. exact (ends_with_pat_ok name suf Hn H). Qed.
 
 Lemma pat_ok_tail : forall c s, pat_ok (c :: s) = true -> pat_ok s = true.
 Proof. intros c s H. cbn in H. now apply andb_true_iff in H as [_ H]. Qed.
